@@ -597,7 +597,7 @@ def strategy():
         st.fixed_dictionaries({"op": st.just("garbage"), "data": st.sampled_from(["c341", "e228a1", "fffe", "c3", "f09f98", "80", "e288", "c0af", "eda080", "1bc3a9"]),
                                "then": st.sampled_from([[], [], ["61", "1b5b41", "c3a9", "62"], ["1b5b313b3543", "7a", "e28882"]])}),
         st.fixed_dictionaries({"op": st.just("advance"), "dt": st.sampled_from([0.01, 0.05, 0.09, 0.1, 0.2, 1.0])}),
-        st.fixed_dictionaries({"op": st.just("request"), "timeout": st.sampled_from([0, 0, 0.01, 0.5, None]),
+        st.fixed_dictionaries({"op": st.just("request"), "timeout": st.sampled_from([0, 0, 0.0, 0.01, 0.5, None]),
                                "during": st.lists(action, max_size=2), "inject": inject}),
         st.fixed_dictionaries({"op": st.just("request"), "timeout": st.sampled_from([0, 0.01, 0.5]), "during": st.just([]), "inject": st.none()}),
     )
